@@ -86,7 +86,12 @@ class HostRig:
         self.out.append({"o": "up_eof"})
 
     # ---- serial seam
+    write_fail_next = False        # the transport raises out of the next write() that carries a DATA frame
+
     def _on_write(self, data: bytes):
+        if self.write_fail_next and any(f["type"] == "DATA" for f in ashref.decode_write(data)):
+            self.write_fail_next = False
+            raise OSError("serial write failed")
         for f in ashref.decode_write(data):
             self.out.append({"o": "write", "f": clean(f)})
 
@@ -125,6 +130,8 @@ class HostRig:
                 res = "ncpfail"
             except asyncio.CancelledError:
                 res = "cancelled"
+            except OSError:
+                res = "writeerr"
             except Exception as e:  # noqa
                 res = "exc:" + type(e).__name__
             if res != "cancelled":
